@@ -224,12 +224,73 @@ def run(chk):
         chk.distinct.add((s.kind, s.typ, s.form, s.nf, pos))
     chk.extra['worst_error'] = {k: float('%.3e' % v) for k, v in worst.items()}
     tolerances_and_limits(chk, exe, rng, broken, 2 if quick else 12)
+    resolve_histories(chk, exe, rng, 2 if quick else 20)
     chk.rule = ('TRL, SOLR (unknown reciprocal through with unknown reflections), redundant unknown reflect and three connection-repeatability shorts, on the six error-term types '
                 'without T16/U16, m and a/b forms, 1..2 frequencies, guesses within 20-30 % / 20 degrees of the truth; tolerance ladder 1e-3 .. 1e-10; iteration limits 1..30; '
-                'guesses outside the basin')
+                'guesses outside the basin; the same unknown solved again by a second vnacal_new_t on another grid of equal length')
     chk.samples = [[l[:100] for l in scs[1].lines[2:8]]]
     if broken and not chk.violations:
         chk.violation('obligation', 'proof/correspondence obligations that no longer check:\n' + '\n'.join(broken[:30]), nofail=True)
+
+
+def resolve_histories(chk, exe, rng, reps):
+    """the same unknown parameter solved a second time, by another vnacal_new_t of the same vnacal_t on a *different* frequency grid
+    of the same length: its value is the newly solved one on the new grid (and frequencies of the old grid outside the new are refused)"""
+    for _ in range(reps):
+        for typ in ('T8', 'U8', 'TE10', 'E12'):
+            nf = rng.choice([2, 3])
+            A = Sc(rng, typ, 1, 1, nf, form='m').begin()
+            for code in (calsim.SHORT, calsim.OPEN, calsim.MATCH):
+                A.add_reflect(1, code)
+            gA = [complex(rng.uniform(-0.5, 0.5), rng.uniform(-0.5, 0.5)) for _ in range(nf)]
+            u = A.unknown(guess_near(rng, gA[0], 0.05), gA)
+            SA = [calsim.embed(1, [0], [[gA[f]]], A.others) for f in range(nf)]
+            A.lines.append('cal add %d single_reflect %s %d %d' % (A.n, A.mtext(A.meas(SA)), u, 1))
+            A.solve()
+            iA = []
+            for f in range(nf):
+                A.lines.append('cal get_parameter_value %d %d %s' % (A.c, u, vlib.d2h(A.fvec[f])))
+                iA.append(len(A.lines) - 1)
+            k = rng.choice([0.1, 3.0, 10.0])
+            B = Sc(rng, typ, 1, 1, nf, form='m', slot_c=0, slot_n=1, fvec=[f * k for f in A.fvec]).begin(create=False)
+            for code in (calsim.SHORT, calsim.OPEN, calsim.MATCH):
+                B.add_reflect(1, code)
+            gB = [g + complex(rng.uniform(-0.1, 0.1), rng.uniform(-0.1, 0.1)) for g in gA]
+            SB = [calsim.embed(1, [0], [[gB[f]]], B.others) for f in range(nf)]
+            B.lines.append('cal add %d single_reflect %s %d %d' % (B.n, B.mtext(B.meas(SB)), u, 1))
+            B.solve()
+            lines = A.lines + B.lines
+            iB = []
+            for f in range(nf):
+                lines.append('cal get_parameter_value %d %d %s' % (A.c, u, vlib.d2h(B.fvec[f])))
+                iB.append(len(lines) - 1)
+            lines.append('cal get_parameter_value %d %d %s' % (A.c, u, vlib.d2h(A.fvec[0] if k > 1 else A.fvec[-1])))   # outside the new grid
+            iout = len(lines) - 1
+            lines += ['cal free 0', 'cal live']
+            out, rc, err = vlib.run_lines(exe, lines, timeout=300)
+            chk.evaluations += 1
+            tag = 're-solve %s nf=%d grid x%g' % (typ, nf, k)
+            if rc != 0 or len(out) != len(lines):
+                chk.violation('sanitizer-resolve', '%s: crashed / sanitizer report:\n%s' % (tag, err[-1200:]), lines[:len(out) + 1])
+                return
+            bad = [(l, x) for l, x in zip(lines[:iout], out) if not x.startswith('ok')]
+            if bad:
+                chk.violation('resolve-step', '%s: `%s` -> %s' % (tag, bad[0][0][:80], bad[0][1][:100]), lines[:lines.index(bad[0][0]) + 1])
+                return
+            for idx, truth, which in ((iA, gA, 'first'), (iB, gB, 'second')):
+                for f, i in enumerate(idx):
+                    v = vlib.hs2c(out[i].split()[-2:])[0]
+                    if abs(v - truth[f]) > 1e-4:
+                        chk.violation('resolve-value', '%s: value of the unknown after the %s solve at frequency %d is %r, solved truth %r' % (tag, which, f, v, truth[f]), lines[:i + 1])
+                        return
+            if out[iout].startswith('ok'):
+                chk.violation('resolve-range', '%s: a frequency of the first grid outside the second is still answered after the second solve: %s' % (tag, out[iout][:80]), lines[:iout + 1])
+                return
+            if out[-1] != 'ok live=0':
+                chk.violation('resolve-leak', '%s: allocations remain: %s' % (tag, out[-1]), lines)
+                return
+            chk.count('resolve_ok')
+            chk.distinct.add(('resolve', typ, nf, k))
 
 
 def tolerances_and_limits(chk, exe, rng, broken, reps):
